@@ -1069,9 +1069,11 @@ class HealSparseMap(object):
         This output fracdet_map counts the fraction of "valid" sub-pixels (those that
         are not equal to the sentinel value) at the desired nside resolution.
 
-        Note: You should not compute the fracdet_map of an existing fracdet_map.  To
-        get a fracdet_map at a lower resolution, use the degrade method with the
-        default "mean" reduction.
+        Note: You should not compute the fracdet_map of an existing fracdet_map, nor
+        degrade one: its empty sub-pixels are unset (the sentinel of a fracdet_map is
+        0.0), so the "mean" reduction averages the non-empty sub-pixels only and
+        over-estimates the fraction.  To get a fracdet_map at a lower resolution, call
+        this method on the original map with the lower nside.
 
         Parameters
         ----------
